@@ -9,6 +9,7 @@ import DimodProofs.C02Spin
 import DimodProofs.C02Init
 import DimodProofs.C02ViewBridge
 import DimodProofs.C02PyHist
+import DimodProofs.C02PolyH
 import Properties.C04
 
 /-! # C02 — changing between spin and binary representation never changes any energy
@@ -464,5 +465,56 @@ theorem pybqm_changeVartype_after_history (vt : En.VT) (ops : List (HOp Rat)) :
     is first in its neighbourhood as coded (the theorem above does not depend on that) -/
 example : (LBqm.hrun .spin [.addLinear (.int 0) 1, .addQuadratic (.int 0) (.int 1) 2, .relabel (.int 0) (.int 2)]).rawOrder
     = [(.int 1, [.int 1, .int 2]), (.int 2, [.int 2, .int 1])] := by decide +kernel
+
+end C02
+
+/-! ## `BinaryPolynomial.to_hubo / to_hising / from_hubo` (`DimodModel/PolyH.lean`) -/
+
+namespace C02
+
+open En
+
+/-- **`to_hubo()`**, BINARY polynomial: `Σ H[t]·Πx + offset` is the polynomial at `x`; SPIN polynomial (converted by
+    `to_binary()` first): it is the polynomial at `s = 2x − 1` -/
+theorem poly_to_hubo_energy {R : Type} [CommRing R] (p : Poly R) (x : Nat → R) :
+    polySpec x (polyToHuboOf false p).1 + (polyToHuboOf false p).2 = polySpec x p ∧
+    polySpec x (polyToHuboOf true p).1 + (polyToHuboOf true p).2 = polySpec (fun v => two * x v - 1) p := by
+  unfold polyToHuboOf
+  refine ⟨polyToHubo_energy x p, ?_⟩
+  simp only [if_true]
+  rw [polyToHubo_energy, polyToBinary_energy]
+
+/-- **`to_hising()`**, SPIN polynomial: `Σ h·s + Σ J[t]·Πs + offset` is the polynomial at `s`; BINARY polynomial (converted by
+    `to_spin()` first): it is the polynomial at `x = (s + 1)/2` -/
+theorem poly_to_hising_energy {R : Type} [Field R] (p : Poly R) (h2 : (two : R) ≠ 0) (s : Nat → R) :
+    hSum s (polyToHisingOf false p).1 + polySpec s (polyToHisingOf false p).2.1 + (polyToHisingOf false p).2.2 = polySpec s p ∧
+    hSum s (polyToHisingOf true p).1 + polySpec s (polyToHisingOf true p).2.1 + (polyToHisingOf true p).2.2
+      = polySpec (fun v => (s v + 1) / two) p := by
+  unfold polyToHisingOf
+  refine ⟨polyToHising_energy s p, ?_⟩
+  simp only [if_true]
+  rw [polyToHising_energy, polyToSpin_energy p h2]
+
+/-- **`from_hubo(H, offset)`** adds the offset to the constant term: the polynomial is `Σ H + offset` -/
+theorem poly_from_hubo_energy {R : Type} [CommRing R] (H : Poly R) (o : R) (x : Nat → R) :
+    polySpec x (polyFromHubo H (some o)) = polySpec x H + o ∧ polyFromHubo H none = H := by
+  refine ⟨?_, rfl⟩
+  unfold polyFromHubo
+  simp only []
+  rw [polySpec_set]
+  simp [termProd]
+
+/-- `from_hising(h, J, offset)` as coded *assigns* the offset to the constant term: a `()` entry of `J` is overwritten, not
+    added to (unlike `from_hubo`).  For `J` without a `()` entry and terms distinct from the `(v,)` of `h` the polynomial is
+    `Σ h + Σ J + offset` — only the offset step is stated here, hence `_partial`. -/
+theorem poly_from_hising_offset_partial {R : Type} [CommRing R] (h : ODict Nat R) (J : Poly R) (o : R) (x : Nat → R) :
+    polySpec x (polyFromHising h J (some o))
+      = polySpec x (polyFromHising h J none) + (o - (ODict.get? (polyFromHising h J none) []).getD 0) := by
+  unfold polyFromHising
+  simp only []
+  rw [polySpec_set]
+  simp [termProd]
+
+example : polyToHuboOf true [([0, 1], (1 : Rat))] = ([([1], -2), ([0], -2), ([0, 1], 4)], 1) := by decide +kernel
 
 end C02
